@@ -40,8 +40,13 @@ CONSTANTS Ids,          \* document ids
           MaxMergeInputs, \* bound on the size of one merge task (0 = any)
           WithMergeFail, \* TRUE: a file merge may fail / be cancelled after its output was written
           MaxOpens,      \* bound on the number of reader / copy opens (keeps simulation from toggling them forever)
-          AsyncRelease   \* TRUE: eligibility for removal is recorded by an asynchronous step (as in the code);
+          AsyncRelease,  \* TRUE: eligibility for removal is recorded by an asynchronous step (as in the code);
                          \* FALSE: an epoch is eligible as soon as nobody holds it (most aggressive purging)
+          BuilderBase,   \* TRUE: the index was made by the offline builder (builder.go) and is then used online:
+                         \* one recorded snapshot whose only segment has an id that is NOT the number of its file
+          CopySchedById  \* FALSE (the code): CopyReader schedules a persisted segment under the name of its file
+                         \* and an in-memory one under the name its id will give it; TRUE: the deviating design
+                         \* "a file is named after its segment id" (refuted for a builder-made base)
 
 VARIABLES batch,        \* b -> [puts, dels]   (collapsed ops of batch b)
           nsub,         \* batches submitted so far
@@ -55,8 +60,8 @@ VARIABLES batch,        \* b -> [puts, dels]   (collapsed ops of batch b)
           pPc, pSnap, pAcks, pNew, lastP,
           mPc, mSnap, mTask, mNew, lastM,
           bolt,         \* ep -> snapshot | NoSnap
-          disk,         \* zap files (named by segment id) in the directory
-          inel,         \* ineligibleForRemoval
+          disk,         \* zap files in the directory, by file NAME (FileOf)
+          inel,         \* ineligibleForRemoval (file names)
           elig,         \* eligibleForRemoval (epochs)
           rdr,          \* snapshot held by a reader, or NoSnap
           cPc, cSnap, cSched, cCopied,  \* online copy
@@ -70,6 +75,18 @@ vars == <<batch, nsub, intro, segdocs, root, nextEp, nextSid, wst, pend, acked,
 -----------------------------------------------------------------------------
 BoltEps == BoltEpsOf(bolt)
 Named == NamedOf(bolt)
+\* The name of the file that holds (or will hold) segment s.  Persister and merger
+\* name a file after the id of its segment (zapFileName(id)); the offline builder
+\* does not: it records its single segment under the first id with the file the
+\* SECOND id would get (builder.go: "segment id 2 is chosen to match the behavior
+\* of a scorch index which indexes a single batch"), and the ids handed out after
+\* opening start beyond every file number found in the directory.
+BuilderSid == 1
+BuilderFile == 2
+FileOf(s) == IF BuilderBase /\ s = BuilderSid THEN BuilderFile ELSE s
+FN(S) == { FileOf(s) : s \in S }
+\* segments whose file is in the directory
+DiskSids == { s \in 1..(MaxSid + 1) : (BuilderBase => s # BuilderFile) /\ FileOf(s) \in disk }
 LiveDocs(snap) == LiveDocsOf(segdocs, snap)
 Replay(k) == ReplayOf(batch, intro, k)
 NoBatch == [puts |-> {}, dels |-> {}]
@@ -80,14 +97,29 @@ Held == (IF pPc \notin {"idle", "purgeB", "purgeZ"} THEN {pSnap.ep} ELSE {}) \cu
         (IF rdr # NoSnap THEN {rdr.ep} ELSE {}) \cup
         (IF cPc # "idle" THEN {cSnap.ep} ELSE {})
 
-Init == /\ batch = [n \in 1..MaxB |-> NoBatch] /\ nsub = 0 /\ intro = <<>>
+\* what the offline builder leaves behind (batch 1 = everything it was given):
+\* one file segment, one recorded snapshot naming it, nothing in memory
+BuilderPuts == Ids
+BuilderSnap == [ep |-> 1, segs |-> <<[sid |-> BuilderSid, del |-> {}, f |-> TRUE]>>, k |-> 1]
+InitEmpty ==
+        /\ batch = [n \in 1..MaxB |-> NoBatch] /\ nsub = 0 /\ intro = <<>>
         /\ segdocs = [s \in 1..MaxSid |-> {}]
         /\ root = NoSnap /\ nextEp = 1 /\ nextSid = 1
+        /\ acked = {} /\ lastP = 0
+        /\ bolt = [e \in 1..MaxEp |-> NoSnap] /\ disk = {}
+InitBuilt ==
+        /\ batch = [n \in 1..MaxB |-> IF n = 1 THEN [puts |-> BuilderPuts, dels |-> {}] ELSE NoBatch]
+        /\ nsub = 1 /\ intro = <<1>>
+        /\ segdocs = [s \in 1..MaxSid |-> IF s = BuilderSid THEN { <<id, 1>> : id \in BuilderPuts } ELSE {}]
+        /\ root = BuilderSnap /\ nextEp = 2 /\ nextSid = BuilderFile + 1
+        /\ acked = {1} /\ lastP = 1
+        /\ bolt = [e \in 1..MaxEp |-> IF e = 1 THEN BuilderSnap ELSE NoSnap] /\ disk = {BuilderFile}
+Init == /\ IF BuilderBase THEN InitBuilt ELSE InitEmpty
         /\ wst = [w \in Writers |-> IdleW]
-        /\ pend = {} /\ acked = {}
-        /\ pPc = "idle" /\ pSnap = NoSnap /\ pAcks = {} /\ pNew = 0 /\ lastP = 0
+        /\ pend = {}
+        /\ pPc = "idle" /\ pSnap = NoSnap /\ pAcks = {} /\ pNew = 0
         /\ mPc = "idle" /\ mSnap = NoSnap /\ mTask = {} /\ mNew = 0 /\ lastM = 0
-        /\ bolt = [e \in 1..MaxEp |-> NoSnap] /\ disk = {} /\ inel = {} /\ elig = {}
+        /\ inel = {} /\ elig = {}
         /\ rdr = NoSnap
         /\ cPc = "idle" /\ cSnap = NoSnap /\ cSched = {} /\ cCopied = {}
         /\ dirty = FALSE /\ nopen = 0
@@ -116,7 +148,7 @@ IntroSegment(w) ==
          r == IntroSegmentResult(segdocs, root, batch[b], wst[w].sid, wst[w].obs) IN
      /\ root' = [ep |-> nextEp, segs |-> r.segs, k |-> Len(intro) + 1]
      /\ intro' = Append(intro, b)
-     /\ inel' = inel \ r.dropped
+     /\ inel' = inel \ FN(r.dropped)
      /\ pend' = pend \cup {b}
      /\ wst' = [wst EXCEPT ![w] = IF Safe THEN [@ EXCEPT !.st = "applied"] ELSE IdleW]
   /\ nextEp' = nextEp + 1
@@ -147,7 +179,7 @@ PTake ==
 PMMWrite ==
   /\ Up /\ pPc = "mmWrite"
   /\ pNew' = nextSid /\ nextSid' = nextSid + 1
-  /\ inel' = inel \cup {nextSid} /\ disk' = disk \cup {nextSid}
+  /\ inel' = inel \cup {FileOf(nextSid)} /\ disk' = disk \cup {FileOf(nextSid)}
   /\ segdocs' = [segdocs EXCEPT ![nextSid] = MergedDocsOf(segdocs, pSnap, MemSids(pSnap))]
   /\ pPc' = "mmIntro"
   /\ UNCHANGED <<batch, nsub, intro, root, nextEp, wst, pend, acked, pSnap, pAcks, lastP,
@@ -158,7 +190,7 @@ PMMIntro ==
   /\ Up /\ pPc = "mmIntro"
   /\ LET r == IntroMergeResult(segdocs, root, pSnap, MemSids(pSnap), pNew, segdocs[pNew], TRUE) IN
      /\ root' = [ep |-> nextEp, segs |-> r.segs, k |-> root.k]
-     /\ inel' = (inel \ r.dropped) \ (IF r.skipped THEN {pNew} ELSE {})
+     /\ inel' = (inel \ FN(r.dropped)) \ (IF r.skipped THEN {FileOf(pNew)} ELSE {})
      /\ pPc' = IF r.skipped THEN "write" ELSE "mmCommit"
   /\ nextEp' = nextEp + 1
   /\ UNCHANGED <<batch, nsub, intro, segdocs, nextSid, wst, pend, acked, pSnap, pAcks, pNew, lastP,
@@ -171,7 +203,7 @@ PMMCommit ==
   /\ LET eq == [ep |-> pSnap.ep, k |-> pSnap.k,
                 segs |-> SelectSeq(pSnap.segs, LAMBDA e : e.f) \o <<[sid |-> pNew, del |-> {}, f |-> TRUE]>>] IN
      /\ bolt' = [bolt EXCEPT ![pSnap.ep] = eq]
-     /\ inel' = inel \ Files(eq)
+     /\ inel' = inel \ FN(Files(eq))
   /\ pPc' = "ack"
   /\ UNCHANGED <<batch, nsub, intro, segdocs, root, nextEp, nextSid, wst, pend, acked, pSnap, pAcks, pNew, lastP,
                  mPc, mSnap, mTask, mNew, lastM, disk, elig, rdr, cPc, cSnap, cSched, cCopied, nopen>>
@@ -179,7 +211,7 @@ PMMCommit ==
 
 \* persistSnapshotDirect: write every in-memory segment of pSnap to its file
 PWrite ==
-  /\ pPc = "write" /\ disk' = disk \cup MemSids(pSnap)
+  /\ pPc = "write" /\ disk' = disk \cup FN(MemSids(pSnap))
   /\ pPc' = IF MemSids(pSnap) = {} THEN "commit" ELSE "intro"
   /\ UNCHANGED <<batch, nsub, intro, segdocs, root, nextEp, nextSid, wst, pend, acked, pSnap, pAcks, pNew, lastP,
                  mPc, mSnap, mTask, mNew, lastM, bolt, inel, elig, rdr, cPc, cSnap, cSched, cCopied, nopen>>
@@ -198,7 +230,7 @@ PCommit ==
   /\ pPc = "commit"
   /\ LET s == [ep |-> pSnap.ep, k |-> pSnap.k,
                segs |-> [ i \in 1..Len(pSnap.segs) |-> [pSnap.segs[i] EXCEPT !.f = TRUE] ]] IN
-     /\ bolt' = [bolt EXCEPT ![pSnap.ep] = s] /\ inel' = inel \ Files(s)
+     /\ bolt' = [bolt EXCEPT ![pSnap.ep] = s] /\ inel' = inel \ FN(Files(s))
   /\ pPc' = "ack"
   /\ UNCHANGED <<batch, nsub, intro, segdocs, root, nextEp, nextSid, wst, pend, acked, pSnap, pAcks, pNew, lastP,
                  mPc, mSnap, mTask, mNew, lastM, disk, elig, rdr, cPc, cSnap, cSched, cCopied, nopen>>
@@ -244,7 +276,7 @@ PPurgeB ==
 \* removeOldZapFiles: remove what no bolt snapshot names, unless ineligible or scheduled for copy
 PPurgeZ ==
   /\ pPc = "purgeZ"
-  /\ disk' = { f \in disk : f \in Named \/ f \in inel \/ f \in cSched }
+  /\ disk' = { f \in disk : f \in FN(Named) \/ f \in inel \/ f \in cSched }
   /\ pPc' = "idle"
   /\ UNCHANGED <<batch, nsub, intro, segdocs, root, nextEp, nextSid, wst, pend, acked, pSnap, pAcks, pNew, lastP,
                  mPc, mSnap, mTask, mNew, lastM, bolt, inel, elig, rdr, cPc, cSnap, cSched, cCopied, nopen>>
@@ -266,7 +298,7 @@ MPlanWrite(T) ==
      THEN /\ mPc' = "idle" /\ lastM' = mSnap.ep
           /\ UNCHANGED <<mTask, mNew, nextSid, inel, disk, segdocs, nopen>>
      ELSE /\ mTask' = T /\ mNew' = nextSid /\ nextSid' = nextSid + 1
-          /\ inel' = inel \cup {nextSid} /\ disk' = disk \cup {nextSid}
+          /\ inel' = inel \cup {FileOf(nextSid)} /\ disk' = disk \cup {FileOf(nextSid)}
           /\ segdocs' = [segdocs EXCEPT ![nextSid] = MergedDocsOf(segdocs, mSnap, T)]
           /\ mPc' = "intro" /\ lastM' = lastM
   /\ UNCHANGED <<batch, nsub, intro, root, nextEp, wst, pend, acked, pPc, pSnap, pAcks, pNew, lastP,
@@ -277,7 +309,7 @@ MIntro ==
   /\ Up /\ mPc = "intro"
   /\ LET r == IntroMergeResult(segdocs, root, mSnap, mTask, mNew, segdocs[mNew], TRUE) IN
      /\ root' = [ep |-> nextEp, segs |-> r.segs, k |-> root.k]
-     /\ inel' = inel \ r.dropped
+     /\ inel' = inel \ FN(r.dropped)
      /\ mPc' = IF r.skipped THEN "cleanSkip" ELSE "cleanOk"
   /\ nextEp' = nextEp + 1
   /\ UNCHANGED <<batch, nsub, intro, segdocs, nextSid, wst, pend, acked, pPc, pSnap, pAcks, pNew, lastP,
@@ -287,7 +319,7 @@ MIntro ==
 \* skipped introduction: un-mark the new file; always (deferred cleanup): un-mark the inputs
 MClean ==
   /\ mPc \in {"cleanSkip", "cleanOk"}
-  /\ inel' = IF mPc = "cleanSkip" THEN (inel \ {mNew}) \ mTask ELSE inel \ mTask
+  /\ inel' = IF mPc = "cleanSkip" THEN (inel \ {FileOf(mNew)}) \ FN(mTask) ELSE inel \ FN(mTask)
   /\ lastM' = mSnap.ep /\ mPc' = "idle"
   /\ UNCHANGED <<batch, nsub, intro, segdocs, root, nextEp, nextSid, wst, pend, acked, pPc, pSnap, pAcks, pNew, lastP,
                  mSnap, mTask, mNew, bolt, disk, elig, rdr, cPc, cSnap, cSched, cCopied, nopen>>
@@ -299,7 +331,7 @@ MClean ==
 \* be retried on the same root (lastM unchanged).
 MFail ==
   /\ WithMergeFail /\ mPc = "intro"
-  /\ inel' = inel \ {mNew}
+  /\ inel' = inel \ {FileOf(mNew)}
   /\ mPc' = "idle"
   /\ UNCHANGED <<batch, nsub, intro, segdocs, root, nextEp, nextSid, wst, pend, acked, pPc, pSnap, pAcks, pNew, lastP,
                  mSnap, mTask, mNew, lastM, bolt, disk, elig, rdr, cPc, cSnap, cSched, cCopied, nopen>>
@@ -317,7 +349,8 @@ RClose == /\ rdr # NoSnap /\ rdr' = NoSnap
 \* CopyReader schedules every file name of the root, including the names
 \* in-memory segments WILL get when persisted.
 COpen == /\ WithCopy /\ cPc = "idle" /\ root.ep > 0 /\ nopen < MaxOpens /\ nopen' = nopen + 1
-         /\ cSnap' = root /\ cSched' = Sids(root) /\ cCopied' = {} /\ cPc' = "copying"
+         /\ cSnap' = root /\ cSched' = (IF CopySchedById THEN Sids(root) ELSE FN(Sids(root)))
+         /\ cCopied' = {} /\ cPc' = "copying"
          /\ UNCHANGED <<batch, nsub, intro, segdocs, root, nextEp, nextSid, wst, pend, acked, pPc, pSnap, pAcks, pNew, lastP,
                         mPc, mSnap, mTask, mNew, lastM, bolt, disk, inel, elig, rdr>>
          /\ dirty' = TRUE
@@ -366,11 +399,11 @@ EveryBoltIsAState == \A e \in BoltEps : LiveDocs(bolt[e]) = Replay(bolt[e].k)
 \* ineligible for removal, or written by the persister in the round it has not
 \* committed yet (the persister is the purger, so that window is safe)
 RootFilesProtected ==
-  \A f \in Files(root) : \/ f \in Named \/ f \in inel
+  \A f \in Files(root) : \/ f \in Named \/ FileOf(f) \in inel
                           \/ (pPc = "commit" /\ f \in MemSids(pSnap))
 
 \* C03: what a kill at this instant recovers
-RecEp == RecEpOf(bolt, disk)
+RecEp == RecEpOf(bolt, DiskSids)
 RecSnap == IF RecEp = 0 THEN NoSnap ELSE bolt[RecEp]
 Durable == /\ LiveDocs(RecSnap) = Replay(RecSnap.k)
            /\ \A b \in acked : \E i \in 1..RecSnap.k : intro[i] = b
@@ -379,18 +412,18 @@ NewestLoads == BoltEps # {} => RecEp = CHOOSE e \in BoltEps : \A x \in BoltEps :
 
 \* C13: Rollback(e) deletes every snapshot newer than e; reopening then loads e
 RolledBack(e) == [ x \in DOMAIN bolt |-> IF x > e THEN NoSnap ELSE bolt[x] ]
-RollbackOK == \A e \in BoltEps : RecEpOf(RolledBack(e), disk) = e
+RollbackOK == \A e \in BoltEps : RecEpOf(RolledBack(e), DiskSids) = e
 
 \* C12: needed files exist
-BoltFilesOnDisk == \A e \in BoltEps : Files(bolt[e]) \subseteq disk
-RootFilesOnDisk == Files(root) \subseteq disk
-CopyFilesOnDisk == cPc # "idle" => (Files(cSnap) \ cCopied) \subseteq disk
-ReaderFilesOnDisk == rdr # NoSnap => Files(rdr) \subseteq disk
+BoltFilesOnDisk == \A e \in BoltEps : FN(Files(bolt[e])) \subseteq disk
+RootFilesOnDisk == FN(Files(root)) \subseteq disk
+CopyFilesOnDisk == cPc # "idle" => FN(Files(cSnap) \ cCopied) \subseteq disk
+ReaderFilesOnDisk == rdr # NoSnap => FN(Files(rdr)) \subseteq disk
 \* ... and unneeded ones do not accumulate
 Quiescent == /\ ~dirty /\ pPc = "idle" /\ mPc = "idle" /\ rdr = NoSnap /\ cPc = "idle"
              /\ root.ep = lastP /\ (WithMerger => root.ep = lastM) /\ pend = {}
              /\ \A w \in Writers : wst[w].st = "idle"
-NoOrphansWhenQuiescent == Quiescent => (disk \subseteq Named /\ inel = {})
+NoOrphansWhenQuiescent == Quiescent => (disk \subseteq FN(Named) /\ inel = {})
 \* retention: never more epochs than KeepN beyond those not yet released
 RetentionOK == Cardinality(BoltEps \ (elig \cup {root.ep} \cup Held \cup {lastP})) <= KeepN
 
